@@ -121,15 +121,31 @@ Proof.
   destruct fields_witnesses_rejected as [_ [_ [H1 [_ [_ [H2 H3]]]]]]. auto.
 Qed.
 
-(* Distinctness of ITEM names for definitions: REFUTED in general (F2) *)
-Theorem C08_defs_distinct_excl :
-  forall cls (defs : list ustring),
-    NoDup defs -> ~ Known_F2 cls defs -> NoDup (def_idents cls defs).
-Proof. exact defs_distinct_excl. Qed.
+(* definitions added by one call (lib.rs add_ref_types_impl, with the check of
+   fix c22ef06): distinct valid item names, or Err -- never duplicates *)
+Theorem C08_defs_distinct_or_err :
+  forall cls, ClassesOK cls -> forall (defs ids : list ustring),
+    add_definitions cls defs = Ok ids ->
+    NoDup ids /\ ids = List.map (fun d => sanitize cls d Pascal) defs /\
+    Forall (fun i => syn_ident_ok cls i = true) ids.
+Proof. exact add_definitions_distinct_or_err. Qed.
 
-Theorem C08_defs_distinct_refuted :
-  exists defs, NoDup defs /\ Known_F2 ascii_classes defs /\ ~ NoDup (def_idents ascii_classes defs).
-Proof. exists w_f2. exact Known_F2_fails. Qed.
+(* the Err is reported for every collision and, for distinct definition
+   names, only for collisions *)
+Theorem C08_defs_err_on_collision :
+  forall cls (defs : list ustring), Defs_collide cls defs -> add_definitions cls defs = Err.
+Proof. exact add_definitions_err_on_collision. Qed.
+
+Theorem C08_defs_ok_without_collision :
+  forall cls (defs : list ustring),
+    NoDup defs -> ~ Defs_collide cls defs -> exists ids, add_definitions cls defs = Ok ids.
+Proof. exact add_definitions_ok_without_collision. Qed.
+
+(* regression: the witness of the repaired finding C08-F2 is rejected *)
+Example C08_defs_witness_rejected :
+  add_definitions ascii_classes w_f2 = Err /\
+  add_definitions ascii_classes [ustr "foo"%string; ustr "bar"%string] = Ok [ustr "Foo"%string; ustr "Bar"%string].
+Proof. destruct defs_witness_rejected as [_ [_ [H1 H2]]]. auto. Qed.
 
 (* non-vacuity: the class hypotheses are satisfiable, and both the X fallback
    and the panic of the variant algorithm are reachable *)
